@@ -56,6 +56,18 @@ CLAIMED = {
         "'bit-identical' is equality in the model (values are copied); that h5py returns the stored bytes is checked, not proved. Found and fixed D5, D5b, D21.",
         "§6 C18",
     ),
+    "C08": (
+        "Lean 4 theorems: closed formula of every entry incl. the |t| <= eps guard, zero for the UBM, linearity in the model offset, additivity in statistics, shape, entry-point equalities, and HasDerivAt: the score is the derivative at 0 of the data's UBM log-likelihood as the means move towards the model (log-sum-exp derivative + regrouping into statistics); Float model vs linear_scoring over all argument forms",
+        "Proof for all C, D, UBMs, models, statistics, offsets. Tie: linear_scoring with models as machines / 3-D / 2-D arrays, single or listed statistics incl. zero-frame ones, scalar / shared / per-test offsets, both normalisation settings, ML or MAP UBM argument.",
+        "Real arithmetic; Python's argument-normalisation glue is modelled by small inductive argument types.",
+        "§6 C08",
+    ),
+    "C14": (
+        "Lean 4 theorems over Mathlib matrices: W W^T = S^-1 and S invertible imply W^T S W = 1; whitened data have zero mean and identity sample covariance; WCCN within-class scatter / K of the transformed data is the identity; label-renaming and enumeration-order invariance of the WCCN fit; Float model (own Gauss-Jordan and Cholesky) vs Whitening/WCCN on NumPy and Dask",
+        "Proof for all N, D, data with invertible (scaled) scatter, all integer labelings, any Cholesky routine meeting its contract L L^T = A. Tie: projections and transformed data vs the implementation for labels 0..K-1, shifted, negative, non-contiguous, unsorted; LAPACK outputs checked against the assumed contract.",
+        "scipy/dask inv and cholesky are parameters with a stated contract (checked at run time on the inputs used), pinv=False only. Found and fixed D6, D22.",
+        "§6 C14",
+    ),
 }
 
 NOT_YET = "check not built yet in this round (see DESIGN.md §8 order of work); not claimed"
